@@ -214,6 +214,9 @@ func (p *untypedParamBinder) Bind(request *http.Request, routeParams RouteParams
 			file, header, ffErr := request.FormFile(p.parameter.Name)
 			if ffErr != nil {
 				if p.parameter.Required {
+					if ffErr == http.ErrMissingFile {
+						return errors.Required(p.Name, p.parameter.In, nil)
+					}
 					return errors.NewParseError(p.Name, p.parameter.In, "", ffErr)
 				}
 
